@@ -2,7 +2,7 @@
    tails, retained buffers, spare capacity, the growth policy) never reach an observation. *)
 From Coq Require Import Strings.String Strings.Byte.
 From Coq Require Import List Arith NArith ZArith Bool Lia.
-From Verif Require Import Base.Bytes Base.Val Base.Outcome Model.Quote Model.Pools.
+From Verif Require Import Base.Bytes Base.Val Model.Pools.
 Import ListNotations.
 
 (* ---------------------------------------------------------------- generic list facts *)
